@@ -20,6 +20,7 @@ RULE = ("exhaustive: every word over {next, update(own), update(foreign item), r
         "destroyed loop); non-trivial = the iterator was opened; oracle = C06 replayed on the packets shown by the dump")
 
 FINISHED, INVALID_HANDLE, MISUSE, WRONG_LOOP, EMPTY_LOOP = 1, 4, 7, 35, 36
+CIF_ERROR = 2
 ITEMS = ["_a", "_B", "_é", "_d.x"]
 
 
@@ -115,6 +116,13 @@ def calls(word, names, end):
                 t += [nm(n), v]
         elif ch == "r":
             t += ["itrem", "0"]
+        elif ch == "o":
+            # a second cif_loop_get_packets while the iterator is open, on the same loop: refused (one iterator at a time per
+            # CIF), and the open iterator must not notice
+            t += ["itopen", "0"]
+        elif ch == "O":
+            # … and on another loop of the same block
+            t += ["itopen", "1"]
     t += ["itclose" if end == "c" else "itabort", "0"]
     return t
 
@@ -129,6 +137,16 @@ def generate(seed, tier):
         for w in words:
             for end in "ca":
                 yield "iter " + " ".join(pre + ["itopen", "0"] + calls(w, names, end) + ["setval", "0", nm("_free"), "C1:" + hexs("ok")])
+        # a refused second get_packets at every position of every short call sequence (seeded change C06_6: the clean-up ROLLBACK
+        # of the refused call ended the open iterator's transaction)
+        if shp[0] not in ("l1x0", "gone"):
+            maxo = 2 if tier == "quick" else 3
+            for w in ["".join(x) for n in range(maxo + 1) for x in itertools.product("nur", repeat=n)]:
+                for pos in range(len(w) + 1):
+                    for kind in "oO":
+                        for end in "ca":
+                            w2 = w[:pos] + kind + w[pos:]
+                            yield "iter " + " ".join(pre + ["itopen", "0"] + calls(w2, names, end) + ["setval", "0", nm("_free"), "C1:" + hexs("ok")])
 
 
 def violations(req, impl):
@@ -228,6 +246,12 @@ def violations(req, impl):
                     out.append("%s: the removal should succeed" % where)
                 work[cur] = None
                 cur = None
+        elif o["op"] == "itopen":
+            # one iterator at a time per CIF: the second get_packets is refused and changes nothing
+            if st["rc"] != CIF_ERROR:
+                out.append("%s: a second cif_loop_get_packets while an iterator is open must be refused with CIF_ERROR" % where)
+            if st["ac"] != "0":
+                out.append("%s: the refused cif_loop_get_packets ended the open iterator's transaction" % where)
         elif o["op"] in ("itclose", "itabort"):
             if st["rc"] != 0:
                 out.append("%s: should succeed" % where)
